@@ -49,3 +49,208 @@ def declare(S: Spec):
          requires=[],
          ensures=[("recount", "self.consumed_ram_gb == Sum(self.active_containers, 'Container._current_memory')")],
          modifies=["self.consumed_ram_gb"])
+
+
+def declare2(S: Spec):
+    # --- per-container facts the pool relies on -----------------------------------------------------
+    # a container in the active list: live with the visible shape, or already ended in this tick
+    S.pred("ActiveOK", [("p", Ref("ResourcePool")), ("c", Ref("Container"))],
+           "c is not None and c.pool is p and c.assignment is not None and c.assignment.ram > 0"
+           " and (c._completed or LiveShape(c)) and implies(c._completed, c._current_memory == 0)"
+           " and c._tick_iter is not None and c._tick_iter.owner is c")
+    # distinct containers of a pool never share an operator (C02: an operator belongs to at most one live container)
+    S.pred("OpsDisjoint", [("s", SeqV(Ref("Container")))],
+           "all(all(all(o not in c2.assignment.ops for o in c1.assignment.ops) for c2 in s if c2 is not c1) for c1 in s)")
+    S.pred("Score", [("c", Ref("Container"))], "rmul(c._current_memory, rdiv(c._current_memory, c.assignment.ram))")
+    S.pred("Candidate", [("c", Ref("Container"))], "not c._completed and c._current_memory > 0")
+
+    KILL_MOD = ["(values(o.pipeline._runtime_status.operator_states) for c in self.active_containers for o in c.assignment.ops)",
+                "(values(o.pipeline._runtime_status.state_counts) for c in self.active_containers for o in c.assignment.ops)",
+                "(c._current_memory for c in self.active_containers)", "(c._completed for c in self.active_containers)",
+                "(c.error for c in self.active_containers)", "self.consumed_ram_gb"]
+    S.fn(f"{MR}:ResourcePool._run_out_of_memory_killer",
+         requires=["nodup(self.active_containers)", "GI1()",
+                   "all(ActiveOK(self, c) for c in self.active_containers)",
+                   "OpsDisjoint(seq(self.active_containers))",
+                   "self.consumed_ram_gb == Sum(self.active_containers, 'Container._current_memory')"],
+         ensures=[("individual-limits", "all(c._current_memory <= c.assignment.ram for c in self.active_containers)"),
+                  ("fits-or-nothing-left", "self.consumed_ram_gb <= self.max_ram_pool or all(not Candidate(c) for c in self.active_containers)"),
+                  ("usage-truthful", "self.consumed_ram_gb == Sum(self.active_containers, 'Container._current_memory')"),
+                  ("kill-justified", "all(implies(c._completed and not old(c._completed),"
+                                     " old(c._current_memory) > c.assignment.ram or old(self.consumed_ram_gb) > self.max_ram_pool)"
+                                     " for c in self.active_containers)"),
+                  ("ended-stay-ended", "all(implies(old(c._completed), c._completed and c.error == old(c.error)) for c in self.active_containers)"),
+                  ("killed-report-oom", "all(implies(c._completed and not old(c._completed), c.error == 'OOM') for c in self.active_containers)"),
+                  ("survivors-untouched", "all(implies(not c._completed, c._current_memory == old(c._current_memory) and c._current_op_idx == old(c._current_op_idx))"
+                                          " for c in self.active_containers)"),
+                  ("active-ok", "all(ActiveOK(self, c) for c in self.active_containers)"), ("I1", "GI1()"),
+                  ("highest-score-first", "all(all(implies(c._completed and not old(c._completed) and old(c._current_memory) <= c.assignment.ram and Candidate(s),"
+                                          " old(Score(c)) >= Score(s)) for s in self.active_containers) for c in self.active_containers)"),
+                  ("never-chosen", "all(implies(old(c._current_memory) <= 0 or old(c._completed), c._completed == old(c._completed)) for c in self.active_containers)"),
+                  ("list-kept", "seq(self.active_containers) == old(seq(self.active_containers))")],
+         modifies=KILL_MOD,
+         locals={"scored": List(Tuple(REAL, Ref("Container")))},
+         loops={0: dict(idx="k", header="for c in self.active_containers",
+                        inv=["k <= len(self.active_containers)", "GI1()",
+                             "all(ActiveOK(self, c) for c in self.active_containers)",
+                             "self.consumed_ram_gb == Sum(self.active_containers, 'Container._current_memory')",
+                             "self.consumed_ram_gb <= old(self.consumed_ram_gb)",
+                             "all(self.active_containers[j]._current_memory <= self.active_containers[j].assignment.ram for j in range(0, k))",
+                             "all(implies(c._completed and not old(c._completed), old(c._current_memory) > c.assignment.ram and c.error == 'OOM')"
+                             " for c in self.active_containers)",
+                             "all(implies(not c._completed, c._current_memory == old(c._current_memory) and c._current_op_idx == old(c._current_op_idx))"
+                             " for c in self.active_containers)",
+                             "all(implies(old(c._completed), c._completed and c.error == old(c.error)) for c in self.active_containers)"]),
+                1: dict(idx="k", header="for c in self.active_containers",
+                        inv=["k <= len(self.active_containers)",
+                             "all(t[1] in self.active_containers and Candidate(t[1]) and t[0] == Score(t[1]) for t in scored)",
+                             "all(idx(seq(self.active_containers), t[1]) < k for t in scored)",
+                             "all(implies(Candidate(self.active_containers[j]), any(t[1] is self.active_containers[j] for t in scored)) for j in range(0, k))",
+                             "nodup(scored)",
+                             "all(all(implies(t1[1] is t2[1], t1 == t2) for t2 in scored) for t1 in scored)"]),
+                2: dict(idx="k", header="for (_, victim) in scored",
+                        inv=["k <= len(scored)", "GI1()",
+                             "all(ActiveOK(self, c) for c in self.active_containers)",
+                             "self.consumed_ram_gb == Sum(self.active_containers, 'Container._current_memory')",
+                             "all(scored[j][1]._completed and scored[j][1].error == 'OOM' for j in range(0, k))",
+                             "all(not scored[j][1]._completed and scored[j][1]._current_memory == at_entry(scored[j][1]._current_memory)"
+                             " and scored[j][1]._current_op_idx == at_entry(scored[j][1]._current_op_idx) for j in range(k, len(scored)))",
+                             "all(implies(not any(t[1] is c for t in scored), c._completed == at_entry(c._completed) and c.error == at_entry(c.error)"
+                             " and c._current_memory == at_entry(c._current_memory) and c._current_op_idx == at_entry(c._current_op_idx))"
+                             " for c in self.active_containers)",
+                             "implies(k >= 1, self.consumed_ram_gb + at_entry(scored[k - 1][1]._current_memory) > self.max_ram_pool)"])})
+
+
+def declare3(S: Spec):
+    A = "self.active_containers"
+    SU = "self.suspending_containers"
+    S.pred("SuspendableOK", [("c", Ref("Container"))],
+           "implies(c._can_suspend and not c._completed and c._current_memory <= c.assignment.ram,"
+           " c._current_op_idx >= 1 and c._current_op_idx < len(c.assignment.ops)"
+           " and state(c.assignment.ops[c._current_op_idx]) == OperatorState.ASSIGNED)")
+    # conservation of CPU and RAM (C03), written from the statement
+    S.pred("Conserved", [("p", Ref("ResourcePool"))],
+           "p.avail_cpu_pool + Sum(p.active_containers, 'cpuC') + Sum(p.suspending_containers, 'cpuC') == p.max_cpu_pool and "
+           "p.avail_ram_pool + Sum(p.active_containers, 'ramC') + Sum(p.suspending_containers, 'ramC') == p.max_ram_pool")
+    S.pred("ListsOK", [("p", Ref("ResourcePool"))],
+           "nodup(p.active_containers) and nodup(p.suspending_containers)"
+           " and all(c not in p.suspending_containers for c in p.active_containers)")
+    S.pred("SuspOK", [("p", Ref("ResourcePool")), ("c", Ref("Container"))],
+           "c is not None and c.pool is p and CWF(c) and c.assignment.ram > 0 and not c._completed"
+           " and c._suspend_ticks_left is not None and c._suspend_ticks_left >= 1 and c._current_memory == 0"
+           " and all(state(op) == OperatorState.SUSPENDING for op in rest(c))")
+    S.pred("LiveDisjoint", [("p", Ref("ResourcePool"))],
+           "OpsDisjoint(cat(seq(p.active_containers), seq(p.suspending_containers)))")
+    S.pred("PoolInv", [("p", Ref("ResourcePool"))],
+           "Conserved(p) and ListsOK(p) and LiveDisjoint(p)"
+           " and all(ActiveOK(p, c) and SuspendableOK(c) and not c._completed and c._current_memory <= c.assignment.ram for c in p.active_containers)"
+           " and all(SuspOK(p, c) for c in p.suspending_containers)"
+           " and p.consumed_ram_gb == Sum(p.active_containers, 'Container._current_memory')"
+           " and p.avail_cpu_pool >= 0 and implies(not p.allow_memory_overcommit, p.avail_ram_pool >= 0)"
+           " and p.ticks_per_second >= 1")
+    # an assignment the executor may turn into a container (fresh from Assignment.__init__, handed over once)
+    S.pred("Startable", [("a", Ref("Assignment"))],
+           "a is not None and a.ops is not None and nodup(a.ops) and a.cpu >= 1 and a.ram > 0"
+           " and all(WFop(op) and OpSegsOK(op) and state(op) == OperatorState.ASSIGNED for op in a.ops)")
+    S.pred("BatchOK", [("p", Ref("ResourcePool")), ("asg", SeqV(Ref("Assignment")))],
+           "nodup(asg) and all(Startable(a) for a in asg)"
+           " and all(all(all(o not in a2.ops for o in a1.ops) for a2 in asg if a2 is not a1) for a1 in asg)"
+           " and all(all(all(o not in c.assignment.ops for o in a.ops) for c in p.active_containers) for a in asg)"
+           " and all(all(all(o not in c.assignment.ops for o in a.ops) for c in p.suspending_containers) for a in asg)")
+    S.pred("IdsOK", [("s", SeqV(Ref("Container")))],
+           "all(c.container_id == fmt('c{}', unfmt('c{}', 0, c.container_id))"
+           " and unfmt('c{}', 0, c.container_id) < Container.next_container_num for c in s)"
+           " and all(all(implies(c1.container_id == c2.container_id, c1 is c2) for c2 in s) for c1 in s)")
+
+    CTX = ["GI1()", "ListsOK(self)", "LiveDisjoint(self)", "IdsOK(seq(self.active_containers))", "self.ticks_per_second >= 1"]
+    ACT = "all(ActiveOK(self, c) and SuspendableOK(c) and c._current_memory <= c.assignment.ram for c in self.active_containers)"
+    ACT_LIVE = "all(not c._completed for c in self.active_containers)"
+    SUS = "all(SuspOK(self, c) for c in self.suspending_containers)"
+    USAGE = "self.consumed_ram_gb == Sum(self.active_containers, 'Container._current_memory')"
+
+    S.fn(f"{MR}:ResourcePool.run_one_tick",
+         params={"suspensions": List(Ref("Suspend")), "assignments": List(Ref("Assignment"))},
+         returns=List(Ref("ExecutionResult")),
+         requires=["suspensions is not None and assignments is not None", "PoolInv(self)", "GI1()",
+                   "IdsOK(seq(self.active_containers))", "BatchOK(self, seq(assignments))"],
+         ensures=[("conserved", "Conserved(self)"),
+                  ("never-oversold", "self.avail_cpu_pool >= 0 and implies(not self.allow_memory_overcommit, self.avail_ram_pool >= 0)"),
+                  ("pool-invariant", "PoolInv(self) and GI1() and IdsOK(seq(self.active_containers))"),
+                  ("memory-limits", "all(c._current_memory <= c.assignment.ram for c in self.active_containers)"),
+                  ("usage-truthful", USAGE),
+                  ("fits-or-idle", "self.consumed_ram_gb <= self.max_ram_pool or all(c._current_memory <= 0 for c in self.active_containers)")],
+         raises={"AssertionError": ["GI1()"], "AttributeError": ["GI1()"]},
+         modifies=["star('dv:Operator:OperatorState')", "star('dv:OperatorState:int')",
+                   "star('fld:Container._current_memory')", "star('fld:Container._completed')", "star('fld:Container.error')",
+                   "star('fld:Container._can_suspend')", "star('fld:Container._current_op_idx')", "star('fld:Container._ticks_elapsed')",
+                   "star('fld:Container.suspend_ticks')", "star('fld:Container._suspend_ticks_left')",
+                   "contents(self.active_containers)", "contents(self.suspending_containers)", "contents(self.suspended_containers)",
+                   "contents(self.container_tick_times)",
+                   "self.avail_cpu_pool", "self.avail_ram_pool", "self.consumed_ram_gb", "self.num_completed", "self.i",
+                   "glob('Container.next_container_num')"],
+         allocates=True,
+         locals={"results": List(Ref("ExecutionResult")), "to_remove": List(Ref("Container"))},
+         loops={
+             0: dict(idx="k", header="for s in suspensions",
+                     inv=CTX + ["Conserved(self)", ACT, ACT_LIVE, SUS, USAGE,
+                                "all(c in at_entry(seq(self.active_containers)) for c in self.active_containers)"]),
+             1: dict(idx="k", header="for a in assignments",
+                     inv=CTX + [ACT, ACT_LIVE, SUS, USAGE, "k <= len(assignments)",
+                                "BatchOK(self, drop(assignments, k))",
+                                "Conserved(self)",
+                                "self.avail_cpu_pool == at_entry(self.avail_cpu_pool) - Sum(take(assignments, k), 'cpuA')",
+                                "self.avail_ram_pool == at_entry(self.avail_ram_pool) - Sum(take(assignments, k), 'ramA')"]),
+             2: dict(idx="k", header="for c in self.suspending_containers",
+                     inv=CTX + [ACT, ACT_LIVE, USAGE, "k <= len(self.suspending_containers)",
+                                "nodup(to_remove) and all(c in self.suspending_containers and idx(seq(self.suspending_containers), c) < k for c in to_remove)",
+                                "all(implies(j < k, iff(self.suspending_containers[j]._suspend_ticks_left == 0, self.suspending_containers[j] in to_remove))"
+                                " for j in range(0, len(self.suspending_containers)))",
+                                "all(implies(c not in to_remove, SuspOK(self, c)) for c in self.suspending_containers)",
+                                "all(c.pool is self and CWF(c) and c.assignment.ram > 0 and c._current_memory == 0 and not c._completed"
+                                " and all(state(op) == OperatorState.PENDING for op in rest(c)) for c in to_remove)",
+                                "self.avail_cpu_pool + Sum(self.active_containers, 'cpuC') + Sum(self.suspending_containers, 'cpuC')"
+                                " - Sum(to_remove, 'cpuC') == self.max_cpu_pool",
+                                "self.avail_ram_pool + Sum(self.active_containers, 'ramC') + Sum(self.suspending_containers, 'ramC')"
+                                " - Sum(to_remove, 'ramC') == self.max_ram_pool",
+                                "self.avail_cpu_pool >= at_entry(self.avail_cpu_pool) and self.avail_ram_pool >= at_entry(self.avail_ram_pool)"]),
+             3: dict(idx="k", header="for c in to_remove",
+                     inv=CTX + [ACT, ACT_LIVE, USAGE, "k <= len(to_remove)", "nodup(to_remove)",
+                                "all(to_remove[j] in self.suspending_containers for j in range(k, len(to_remove)))",
+                                "all(to_remove[j] not in self.suspending_containers for j in range(0, k))",
+                                "all(c in at_entry(seq(self.suspending_containers)) for c in self.suspending_containers)",
+                                "all(implies(c not in to_remove, SuspOK(self, c)) for c in self.suspending_containers)",
+                                "self.avail_cpu_pool + Sum(self.active_containers, 'cpuC') + Sum(self.suspending_containers, 'cpuC')"
+                                " - Sum(drop(to_remove, k), 'cpuC') == self.max_cpu_pool",
+                                "self.avail_ram_pool + Sum(self.active_containers, 'ramC') + Sum(self.suspending_containers, 'ramC')"
+                                " - Sum(drop(to_remove, k), 'ramC') == self.max_ram_pool"]),
+             4: dict(idx="k", header="for c in self.active_containers",
+                     inv=CTX + [ACT, SUS, USAGE, "Conserved(self)", "k <= len(self.active_containers)",
+                                "all(not self.active_containers[j]._completed for j in range(k, len(self.active_containers)))"]),
+             5: dict(idx="k", header="for c in self.active_containers",
+                     inv=CTX + [ACT, SUS, USAGE, "k <= len(self.active_containers)",
+                                "all(c._current_memory <= c.assignment.ram for c in self.active_containers)",
+                                "self.consumed_ram_gb <= self.max_ram_pool or all(c._current_memory <= 0 for c in self.active_containers)",
+                                "nodup(to_remove) and all(c in self.active_containers and c._completed"
+                                " and idx(seq(self.active_containers), c) < k for c in to_remove)",
+                                "all(implies(j < k and self.active_containers[j]._completed, self.active_containers[j] in to_remove)"
+                                " for j in range(0, len(self.active_containers)))",
+                                "self.avail_cpu_pool + Sum(self.active_containers, 'cpuC') + Sum(self.suspending_containers, 'cpuC')"
+                                " - Sum(to_remove, 'cpuC') == self.max_cpu_pool",
+                                "self.avail_ram_pool + Sum(self.active_containers, 'ramC') + Sum(self.suspending_containers, 'ramC')"
+                                " - Sum(to_remove, 'ramC') == self.max_ram_pool",
+                                "self.avail_cpu_pool >= at_entry(self.avail_cpu_pool) and self.avail_ram_pool >= at_entry(self.avail_ram_pool)",
+                                "len(results) == len(to_remove)"]),
+             6: dict(idx="k", header="for c in to_remove",
+                     inv=CTX + [ACT, SUS, "k <= len(to_remove)", "nodup(to_remove)",
+                                "all(c._current_memory <= c.assignment.ram for c in self.active_containers)",
+                                "all(to_remove[j] in self.active_containers for j in range(k, len(to_remove)))",
+                                "all(to_remove[j] not in self.active_containers for j in range(0, k))",
+                                "all(c in at_entry(seq(self.active_containers)) for c in self.active_containers)",
+                                "all(c._completed and c._current_memory == 0 for c in to_remove)",
+                                "all(implies(c._completed, c in to_remove) for c in self.active_containers)",
+                                "self.consumed_ram_gb == Sum(self.active_containers, 'Container._current_memory')",
+                                "self.avail_cpu_pool + Sum(self.active_containers, 'cpuC') + Sum(self.suspending_containers, 'cpuC')"
+                                " - Sum(drop(to_remove, k), 'cpuC') == self.max_cpu_pool",
+                                "self.avail_ram_pool + Sum(self.active_containers, 'ramC') + Sum(self.suspending_containers, 'ramC')"
+                                " - Sum(drop(to_remove, k), 'ramC') == self.max_ram_pool"]),
+         })
